@@ -179,3 +179,23 @@ pub fn any_value(json_safe: bool, depth: u32) -> BoxedStrategy<AnyV> {
 pub fn attrs_to_sorted(attrs: &HashMap<Arc<str>, Any>) -> BTreeMap<String, AnyV> {
     attrs.iter().map(|(k, v)| (k.to_string(), AnyV::norm_any(v))).collect()
 }
+
+impl AnyV {
+    /// equality up to a few units in the last place on numbers (serde_json's default float parser is
+    /// documented to be off by one ULP in rare cases; enabling its `float_roundtrip` feature is a
+    /// dependency decision, not a wire-format property)
+    pub fn approx_eq(&self, other: &AnyV) -> bool {
+        match (self, other) {
+            (AnyV::Num(a), AnyV::Num(b)) => {
+                let (x, y) = (f64::from_bits(*a), f64::from_bits(*b));
+                if x.is_nan() || y.is_nan() {
+                    return x.is_nan() && y.is_nan();
+                }
+                x == y || (a.max(b) - a.min(b)) <= 8
+            }
+            (AnyV::Arr(a), AnyV::Arr(b)) => a.len() == b.len() && a.iter().zip(b.iter()).all(|(x, y)| x.approx_eq(y)),
+            (AnyV::Map(a), AnyV::Map(b)) => a.len() == b.len() && a.iter().zip(b.iter()).all(|((k1, x), (k2, y))| k1 == k2 && x.approx_eq(y)),
+            (a, b) => a == b,
+        }
+    }
+}
